@@ -4,7 +4,9 @@
 package main
 
 import (
+	"database/sql"
 	"fmt"
+	"path/filepath"
 	"strconv"
 	"strings"
 
@@ -55,12 +57,18 @@ var spamVariants = []struct {
 	{"status-yes-folded", "X-Spam-Status: YES,\r\n score=12.1 required=5\r\n", "~", "YES, score=12.1 required=5"},
 	{"status-no", "X-Spam-Status: No, score=0.1\r\n", "~", "No, score=0.1"},
 	{"both-first-wins", "X-Rspamd-Action: no action\r\nX-Rspamd-Action: reject\r\n", "no action", "~"},
+	// either header alone decides: a harmless action does not overrule a positive status, nor the other way round
+	{"no-action-but-status-yes", "X-Rspamd-Action: no action\r\nX-Spam-Status: Yes, score=9.0\r\n", "no action", "Yes, score=9.0"},
+	{"greylist-but-status-yes", "X-Spam-Status: yes\r\nX-Rspamd-Action: greylist\r\n", "greylist", "yes"},
+	{"soft-reject-but-status-yes-folded", "X-Rspamd-Action: soft reject\r\nX-Spam-Status: YES,\r\n score=7\r\n", "soft reject", "YES, score=7"},
+	{"reject-but-status-no", "X-Rspamd-Action: reject\r\nX-Spam-Status: No, score=0.1\r\n", "reject", "No, score=0.1"},
+	{"no-action-and-status-no", "X-Rspamd-Action: no action\r\nX-Spam-Status: No\r\n", "no action", "No"},
 }
 
 func main() {
 	o, rep := hx.Init("C17")
 	hx.Quiet()
-	rep.Rule = "cells of the product allowed_domains{empty, hit list, miss list} x reject_unknown_user x recipient class{existing, unknown, same local part in another domain, role address, disabled, no @, two @, user of another domain} x recipient count{below, at max_recipients} x size{≤, > max_size} x quota{off, on-under, on-over} x 10 spam-header variants x default_folder{INBOX, existing other, not yet existing} x domain letter case, each played as one LMTP transaction; RCPT code, DATA code and the (store, folder) that gained the message are compared with the model. Distinct by cell; non-trivial when the recipient reaches DATA"
+	rep.Rule = "cells of the product allowed_domains{empty, hit list, miss list} x reject_unknown_user x recipient class{existing, unknown, same local part in another domain, role address, disabled, no @, two @, user of another domain} x recipient count{below, at max_recipients} x size{≤, > max_size} x quota{off, on-under, on-over} x 15 spam-header variants x default_folder{INBOX, existing other, not yet existing} x domain letter case, each played as one LMTP transaction; RCPT code, DATA code and the (store, folder) that gained the message are compared with the model. Distinct by cell; non-trivial when the recipient reaches DATA"
 	dir, cleanup := hx.WorkDir("c17")
 	defer cleanup()
 	w, err := world.New(dir, "example.com")
@@ -86,9 +94,14 @@ func main() {
 		rep.Violate("broken-correspondence", "world", err.Error(), nil)
 		rep.Finish()
 	}
+	roleFileID = roleID
 	aliceID, _ := db.GetUserByEmail(shared, "alice@example.com")
 	db.AssignUserToRoleMailbox(shared, aliceID, roleID, aliceID)
 
+	if v2, err := w.Reopen(); err == nil {
+		view2 = v2
+		defer v2.Mgr.Close()
+	}
 	var cells []cell
 	rng := hx.NewRng(o.Seed)
 	if o.Replay != "" {
@@ -174,6 +187,12 @@ func parseCell(l string) (cell, bool) {
 }
 
 var seq int
+
+// view2: a second database manager / IMAP server on the same directory
+var view2 *world.World
+
+// roleFileID: the id of the role mailbox sales@example.com (its store is data/role_db_<id>.db)
+var roleFileID int64
 
 func play(rep *hx.Report, w *world.World, o *hx.Opts, c cell, idx int) {
 	seq++
@@ -323,6 +342,37 @@ func play(rep *hx.Report, w *world.World, o *hx.Opts, c cell, idx int) {
 	}
 	if len(where) != 1 || where[0] != place {
 		viol(fmt.Sprintf("accepted message should be filed in exactly %s, found in %v", place, where))
+	}
+	// the same through a second database manager on the directory (what another service process, or this one after a
+	// restart, sees): a message filed through a wrong handle looks right only from inside the manager that holds it
+	if view2 != nil && (strings.HasPrefix(wantOwner, "role:") || idx%4 == 0) {
+		if where2 := find(view2, token, folder); strings.Join(where2, ",") != strings.Join(where, ",") {
+			viol(fmt.Sprintf("accepted message is filed in %v as this process sees it, but a second database manager on the same directory finds it in %v", where, where2))
+		}
+		rep.Hit("second-view")
+	}
+	// and on disk: the message rows are in the file of exactly that store (a manager that hands out a wrong handle is
+	// consistent with itself, and so is every manager that opens its stores in the same order)
+	if strings.HasPrefix(wantOwner, "role:") {
+		files, _ := filepath.Glob(w.Dir + "/data/*_db_*.db")
+		var holding []string
+		for _, f := range files {
+			d, err := sql.Open("sqlite3", "file:"+f+"?mode=ro")
+			if err != nil {
+				continue
+			}
+			var n int
+			d.QueryRow("SELECT COUNT(*) FROM message_headers WHERE header_name = 'Subject' AND header_value = ?", token).Scan(&n)
+			d.Close()
+			if n > 0 {
+				holding = append(holding, filepath.Base(f))
+			}
+		}
+		want := fmt.Sprintf("role_db_%d.db", roleFileID)
+		if len(holding) != 1 || holding[0] != want {
+			viol(fmt.Sprintf("mail for the role address is accepted and its rows are in %v; the role's own store is %s", holding, want))
+		}
+		rep.Hit("on-disk")
 	}
 	rep.Hit("filed:" + wantFolder)
 }
